@@ -541,6 +541,8 @@ class VarsManager(object):
                     if var2 is not None:
                         if name_list[0] in self.trainable_vars:
                             self.trainable_vars.remove(name_list[0])
+                            # the group takes the value of its fixed member
+                            var = var2
             for name in name_list:
                 self.variables[name] = var
             # the other members of merged groups follow their head
